@@ -43,7 +43,7 @@ class Gen:
 
     def __init__(self, rng, max_depth=3, classes=True, share=0.15, renames=0.3, defaults=0.15,
                  explicit_required=0.3, inheritance=0.25, formats=False, lookalike_literals=True,
-                 shared_props=0.0, pattern_overlap=0.0, keyword_names=0.0):
+                 shared_props=0.0, pattern_overlap=0.0, keyword_names=0.0, long_descriptions=False):
         self.rng = rng
         self.max_depth = max_depth
         self.classes = classes
@@ -57,6 +57,8 @@ class Gen:
         self.shared_props = shared_props
         # property names that are also names of class keywords / attributes of every model class
         self.keyword_names = keyword_names
+        # (only where reprs are not rendered over and over: error messages quote whole element trees)
+        self.long_descriptions = long_descriptions
         self.pattern_overlap = pattern_overlap
         self.next_id = 0
         self.class_count = 0
@@ -101,7 +103,8 @@ class Gen:
         if rng.random() < self.defaults:
             kw["default"] = self.literal()
         if rng.random() < 0.05:
-            kw["description"] = rng.choice(["plain", "with 'quote'", "x", LONG_DESCRIPTION, LONG_DESCRIPTION * 3])
+            kw["description"] = rng.choice(["plain", "with 'quote'", "x"] + (
+                [LONG_DESCRIPTION, LONG_DESCRIPTION * 3] if self.long_descriptions else []))
 
     def numeric(self, kw):
         rng = self.rng
